@@ -376,6 +376,52 @@ pub fn run_c09(tier: &str, only: Option<String>) -> i32 {
         }
     });
     run.stats = stats;
+    // the derive macro decides the order in which a record's fields are written and read: the
+    // compiled declarations with deduplicated strings in evolved records (declaration order
+    // different from chunk order, removed / transient names in the header, inside an enum
+    // constructor) must number strings like the model does
+    if run.only.as_ref().map(|k| k.starts_with("c09derived")).unwrap_or(true) {
+        let u = crate::common::load();
+        let mut st = Stats::default();
+        let p = refmodel::values::Params { leaf_k: 4, seq_len: 1, elem_k: 2, cap: 300, rec_depth: 1 };
+        for e in u.entries.iter().filter(|e| e.tags.contains(&"dedup_evolved")) {
+            for (vi, v) in refmodel::values::values(&e.ty, &p).into_iter().enumerate() {
+                st.states += 1;
+                let key = format!("c09derived:{}#{vi}", e.name);
+                let r = &(e.enc)(&v, &[bridge::Sink::ToByteVec])[0];
+                st.transitions += 1;
+                st.validated += 1;
+                let model = ref_encode(&e.ty, &r.actual).map(|m| m.b);
+                let ok_bytes = matches!((&r.out, &model), (Out::Ok(b), Ok(mb)) if b == mb);
+                let back = match &r.out {
+                    Out::Ok(b) => {
+                        st.transitions += 1;
+                        Some((e.dec)(b).out)
+                    }
+                    _ => None,
+                };
+                let want = with_transient_defaults(&e.ty, &r.actual);
+                let ok_dec = matches!(&back, Some(Out::Ok(g)) if canon(&e.ty, g) == canon(&e.ty, &want));
+                if !ok_dec {
+                    st.violate(
+                        format!("C09 derived-record decoded-strings-differ type={}", e.name),
+                        key,
+                        json!({"declaration": bridge::rt::ty_name(&e.ty), "value": val_json(&v), "bytes": format!("{:?}", r.out).chars().take(200).collect::<String>(), "decoded": format!("{back:?}").chars().take(300).collect::<String>()}),
+                    );
+                } else if !ok_bytes {
+                    st.violate(
+                        format!("C09 derived-record string-ids-not-in-processing-order type={}", e.name),
+                        key,
+                        json!({"declaration": bridge::rt::ty_name(&e.ty), "value": val_json(&v), "library": format!("{:?}", r.out).chars().take(200).collect::<String>(), "model": model.map(|b| hex(&b)).map_err(|e| format!("{e:?}"))}),
+                    );
+                } else {
+                    st.bump("derived-evolved-record");
+                    st.nontrivial += 1;
+                }
+            }
+        }
+        run.stats.merge(st);
+    }
     run.rule = format!("all scripts of length <= {max_len} over 8 operations (deduplicated | plain write of one of 4 strings) x 7 placements (flat, tuple, Vec, v0 record, evolved record with an added field declared first, evolved record whose header carries removed/transient names equal to script strings, evolved inside evolved); oracle: decoded == written, every write encoded as first-occurrence-plain or vari(-id) in stream-processing order, no-repeat streams identical to the plain stream, unknown ids are Err; non-trivial = script with at least one repeat");
     run.bounds = json!({"script_length": max_len, "strings": ["", "a", "zz", "200 x é"]});
     run.finish()
